@@ -1,12 +1,14 @@
 #!/bin/sh
 # usage: try_seed.sh <property id> <out dir> <k> [tier]   — confirm a seeded change and run our check against it
 ID=$1; OUT=$2; K=$3; TIER=${4:-quick}
+P=$P; D=$D
+test -f $OUT/patch.diff && { P=$OUT/patch.diff; D=$OUT/demo.py; }
 WT=/tmp/int/seedwt_$ID_$K
 rm -rf $WT; git -C /repo worktree prune; git -C /repo worktree add -q $WT HEAD || exit 2
 cd $WT
-echo "== demo on unchanged tree:"; PYTHONPATH=$WT /venv/bin/python $OUT/demo$K.py >/dev/null 2>&1; echo "exit $?"
-git apply $OUT/patch$K.diff || { echo "patch does not apply"; exit 2; }
+echo "== demo on unchanged tree:"; PYTHONPATH=$WT /venv/bin/python $D >/dev/null 2>&1; echo "exit $?"
+git apply $P || { echo "patch does not apply"; exit 2; }
 echo "== tests with change:"; PYTHONPATH=$WT /venv/bin/python -m pytest -q -p no:cacheprovider tests 2>&1 | tail -1
-echo "== demo with change:"; PYTHONPATH=$WT /venv/bin/python $OUT/demo$K.py 2>&1 | tail -2; echo "exit $?"
+echo "== demo with change:"; PYTHONPATH=$WT /venv/bin/python $D 2>&1 | tail -2; echo "exit $?"
 echo "== our check:"; cd /verif; AMOCO_REPO=$WT ./check $ID --tier $TIER 2>&1 | grep -E "VIOLATION|quick:|thorough:|^   " | cut -c1-260 | head -12
 git -C /repo worktree remove --force $WT
